@@ -72,7 +72,6 @@ func VerifC03Compact(h *verifrt.H) {
 		res, err = NewCompactor(path, 32, 0).Compact()
 	}
 	_ = res
-	h.Known("C03-compact-appends-to-leftover-temp", "compact", tempKind != 0 && (entry == 0 || entry == 1 || entry == 2))
 	after, name, lerr := vfLoad(h, path)
 	h.Assert(lerr == nil, "compact-file-still-loads")
 	if lerr == nil {
@@ -133,7 +132,6 @@ func VerifC04Arbitrary(h *verifrt.H) {
 		file = file[:h.Len("fileLen", 0, 63)]
 	}
 	h.PutFile(path, file)
-	h.Known("C04-unbounded-allocation", "alloc", true)
 	r, err := NewFileReader(path)
 	if err == nil {
 		r.LoadIndex()
@@ -186,7 +184,6 @@ func VerifC04Damaged(h *verifrt.H) {
 		copy(mut[p:p+4], v)
 	}
 	h.PutFile(path, mut)
-	h.Known("C04-unbounded-allocation", "alloc", true)
 	idx, _, lerr := vfLoad(h, path)
 	h.ClearKnown()
 	if lerr == nil {
